@@ -16,6 +16,7 @@
 
 #ifdef BLOCH_VERIF
 #include <cstdlib>
+#include <fstream>
 #endif
 #include <algorithm>
 #if defined(__unix__) || defined(__APPLE__)
@@ -1749,6 +1750,14 @@ namespace bloch::runtime {
                     markObject(obj);
             }
         }
+#ifdef BLOCH_VERIF
+        // H7: the heap graph as the collector saw it, for the kept-set model
+        const char* verifGcLog = std::getenv("BLOCH_VERIF_GCLOG");
+        std::vector<char> verifMarked0;
+        std::unordered_set<const Object*> verifPinned;
+        if (verifGcLog)
+            for (const auto& obj : objects) verifMarked0.push_back(obj->marked ? 1 : 0);
+#endif
         // An unreachable object that owns qubits (or tracked fields) is never reclaimed here: its
         // release resets qubits and records outcomes, which must not depend on when a collection
         // happens. For the same reason nothing from which such an object can be reached may be
@@ -1786,6 +1795,10 @@ namespace bloch::runtime {
                     }
                 }
             }
+#ifdef BLOCH_VERIF
+            if (verifGcLog)
+                verifPinned = pinned;
+#endif
             for (auto& obj : objects)
                 if (pinned.count(obj.get()))
                     markObject(obj);
@@ -1798,6 +1811,43 @@ namespace bloch::runtime {
                 unreachable.push_back(obj);
             }
         }
+#ifdef BLOCH_VERIF
+        if (verifGcLog) {
+            std::unordered_map<const Object*, size_t> index;
+            for (size_t i = 0; i < objects.size(); ++i) index[objects[i].get()] = i;
+            std::ofstream log(verifGcLog, std::ios::app);
+            log << "GC " << objects.size() << " |";
+            for (size_t i = 0; i < objects.size(); ++i) {
+                log << ' ' << i << ':' << int(verifMarked0[i]) << ':'
+                    << (releaseIsObservable(objects[i]->cls) ? 1 : 0) << ':';
+                bool first = true;
+                auto child = [&](const std::shared_ptr<Object>& o) {
+                    if (!o)
+                        return;
+                    auto it = index.find(o.get());
+                    log << (first ? "" : ",") << (it == index.end() ? -1L : long(it->second));
+                    first = false;
+                };
+                for (const auto& f : objects[i]->fields) {
+                    if (f.type == Value::Type::Object)
+                        child(f.objectValue);
+                    else if (f.type == Value::Type::ObjectArray)
+                        for (const auto& o : f.objectArray) child(o);
+                }
+            }
+            log << " | P";
+            for (size_t i = 0; i < objects.size(); ++i)
+                if (verifPinned.count(objects[i].get()))
+                    log << ' ' << i;
+            log << " | S";
+            std::unordered_set<const Object*> swept;
+            for (const auto& obj : unreachable) swept.insert(obj.get());
+            for (size_t i = 0; i < objects.size(); ++i)
+                if (swept.count(objects[i].get()))
+                    log << ' ' << i;
+            log << "\n";
+        }
+#endif
         for (auto& obj : unreachable) {
             for (auto& f : obj->fields) f = {};
         }
